@@ -42,6 +42,8 @@ class ContractMixin:
         for n, v in list(bound.items()):
             t = ptypes.get(n)
             if t is not None and not (isinstance(v.t, TConst) and v.const is None and not isinstance(v.extra, list)):
+                if isinstance(t, TList) and v.const is not None and isinstance(v.const.v, tuple):
+                    v = mk_const(list(v.const.v))  # a literal tuple passed where a sequence is expected
                 try:
                     if isinstance(v.t, TOpt) and not isinstance(t, TOpt):
                         bound[n] = self.coerce_to(v, t, st, node)  # None must be excluded: obligation
